@@ -23,16 +23,24 @@ LEVEL_TEXT = ("Machine-checked proof (Coq, closed under the global context) over
               "that the reported key per type is that of the first such entry, that check() is true exactly for "
               "that key, that save followed by load into an empty table preserves every effective key / check() "
               "result, and that loading any file twice leaves the table (hence lookups, key lists, keys(), saved "
-              "output) unchanged, for every table, file and host-hash oracle; the model is tied to "
-              "paramiko/hostkeys.py by a differential run of the model's own definitions (vm_compute) against the "
-              "real class on generated histories every run.")
+              "output) unchanged - also when the load is aborted by InvalidHostKey - and that a key set through "
+              "the SubDict becomes the effective key, for every table, file and host-hash oracle; the loader of the "
+              "model is selected by gen/c41.py from the AST of HostKeys.load (copy vs live list, _has_entry vs "
+              "check) and every other mirrored statement is pinned textually by the same fail-closed translator; "
+              "the model is also tied to paramiko/hostkeys.py by a differential run of the model's own definitions "
+              "(vm_compute) against the real class on generated histories every run.")
 LEVEL_NOTE = ("Trusted: Coq kernel + vm_compute; hand-written model coq/Model/C41.v validated only by the "
               "correspondence run; HMAC-SHA1 host hashing is an oracle relation (computed per case by an "
               "independent hmac/hashlib reference and compared through the real hash_host); text parsing of a line "
               "(from_line: split, base64, key decoding) is abstracted to LSkip/LEntry and exercised by rendering the "
-              "structured lines to text; lines whose third field is not valid base64 (load raises InvalidHostKey), "
-              "entries with key None and host names containing ',', blanks or newlines are outside the model.")
-TECHNIQUE = "Coq proof (induction over tables/files, invariants) + vm_compute differential correspondence"
+              "structured lines to text; a line whose third field is not valid base64 (truncated key, @cert-authority / "
+              "@revoked marker lines) is TBad: load raises InvalidHostKey there and never reads the rest of the file - "
+              "idempotence is unaffected (proved and checked) but such files are only partly loaded; RSA certificate "
+              "lines load as the plain RSA key, Ed25519/ECDSA certificate lines are skipped (checked, not proved); "
+              "entries with key None (HostKeys.__setitem__ with an empty dict: check/add then raise AttributeError for "
+              "that host) and host names containing ',', blanks or newlines are outside the model.")
+TECHNIQUE = ("Coq proof (induction over tables/files, invariants) + AST translator selecting/pinning the modelled "
+             "statements + vm_compute differential correspondence")
 
 TYPE_IDS = {"ssh-rsa": 1, "ssh-ed25519": 2, "ecdsa-sha2-nistp256": 3, "ecdsa-sha2-nistp384": 4,
             "ecdsa-sha2-nistp521": 5}
@@ -96,7 +104,19 @@ def key_universe(repo, rng):
         m.add_string("ssh-ed25519")
         m.add_string(bytes(rng.randrange(256) for _ in range(32)))
         objs.append(PKey.from_type_string("ssh-ed25519", m.asbytes()))
-    return [K(i, o) for i, o in enumerate(objs)]
+    ks = [K(i, o) for i, o in enumerate(objs)]
+    CERTS.clear()
+    del RSA0[:]
+    RSA0.append(ks[0])
+    for tname, fn in (("ssh-rsa", "rsa.key-cert.pub"), ("ssh-ed25519", "ed25519.key-cert.pub"),
+                      ("ecdsa-sha2-nistp256", "ecdsa-256.key-cert.pub")):
+        try:
+            with open(os.path.join(t, "_support", fn)) as f:
+                parts = f.read().split()
+            CERTS[tname] = (parts[0], parts[1])
+        except OSError:
+            pass
+    return ks
 
 
 # --------------------------------------------------------------------------
@@ -136,11 +156,27 @@ def gen_universe(rng, keys):
     return names, toks, unknown, ks, hm
 
 
-def gen_line(rng, names, toks, ks):
-    """returns (text, structured) with structured = None (skipped line) or (list of Name, K)"""
+CERTS = {}       # key type of a *-cert.pub file of the test suite -> (cert type name, base64 blob)
+RSA0 = []        # the K of tests/_support/rsa.key (what its certificate line loads as)
+BAD = "BAD"      # structured form of a line that makes load raise InvalidHostKey
+
+
+def gen_line(rng, names, toks, ks, allow_bad=True):
+    """returns (text, structured) with structured = None (skipped line), (list of Name, K), or BAD"""
     r = rng.random()
     k = rng.choice(ks)
     pool = names + toks
+    if r > 0.94 and allow_bad:
+        h = rng.choice(pool).s
+        good = h + " " + k.tname + " " + k.b64
+        return rng.choice(["@cert-authority " + good, "@revoked " + good, "@cert-authority *." + good,
+                           h + " " + k.tname + " " + k.b64[:-1], h + "  " + k.tname + " " + k.b64]), BAD
+    if r > 0.90 and CERTS:
+        h = rng.choice(pool)
+        t = rng.choice(sorted(CERTS))
+        text = h.s + " " + CERTS[t][0] + " " + CERTS[t][1]
+        # an RSA certificate line loads as the plain RSA key; Ed25519 / ECDSA certificate lines are skipped
+        return text, ((([h], RSA0[0])) if t == "ssh-rsa" else None)
     if r < 0.72:
         n = rng.choice([1, 1, 1, 2, 2, 3, 4])
         if rng.random() < 0.25 and len(pool) >= 2:
@@ -167,9 +203,9 @@ def gen_line(rng, names, toks, ks):
     return bad, None
 
 
-def gen_file(rng, names, toks, ks):
+def gen_file(rng, names, toks, ks, allow_bad=True):
     n = rng.choice([0, 1, 2, 3, 4, 5, 6, 8])
-    lines = [gen_line(rng, names, toks, ks) for _ in range(n)]
+    lines = [gen_line(rng, names, toks, ks, allow_bad) for _ in range(n)]
     text = "".join(t + "\n" for t, _ in lines)
     if lines and rng.random() < 0.1:
         text = text[:-1]                                       # no final newline
@@ -197,13 +233,27 @@ def gen_case(rng, keys):
                 tname = rng.choice(sorted(TYPE_IDS))
                 tid = TYPE_IDS[tname]
             ops.append(("add", rng.choice(names + names + toks), tid, tname, k))
-        elif r < 0.82:
+        elif r < 0.76:
             ops.append(("del", rng.choice(names + toks + [unknown])))
-        elif r < 0.87:
+        elif r < 0.82:
+            k = rng.choice(ks)
+            tid, tname = k.tid, k.tname
+            if rng.random() < 0.1:
+                tname = rng.choice(sorted(TYPE_IDS))
+                tid = TYPE_IDS[tname]
+            ops.append(("subset", rng.choice(names + names + toks + [unknown]), tid, tname, k))
+        elif r < 0.85:
+            k = rng.choice(ks)
+            ops.append(("subdel", rng.choice(names + toks + [unknown]), k.tid, k.tname))
+        elif r < 0.88:
             ops.append(("clear",))
         else:
             ops.append(("savereload",))
     return {"names": names, "toks": toks, "unknown": unknown, "keys": ks, "hm": hm, "ops": ops}
+
+
+def coq_tline(s):
+    return "TBad" if s == BAD else "(TLine %s)" % coq_line(s)
 
 
 def coq_line(s):
@@ -217,13 +267,17 @@ def coq_case(c):
     ops = []
     for op in c["ops"]:
         if op[0] == "load":
-            ops.append("OLoad [%s]" % ";".join(coq_line(s) for s in op[1][1]))
+            ops.append("OLoad [%s]" % ";".join(coq_tline(s) for s in op[1][1]))
         elif op[0] == "add":
             ops.append("OAdd %s %d %s" % (op[1].coq(), op[2], op[4].coq()))
         elif op[0] == "del":
             ops.append("ODel %s" % op[1].coq())
         elif op[0] == "clear":
             ops.append("OClear")
+        elif op[0] == "subset":
+            ops.append("OSubSet %s %d %s" % (op[1].coq(), op[2], op[4].coq()))
+        elif op[0] == "subdel":
+            ops.append("OSubDel %s %d" % (op[1].coq(), op[2]))
         else:
             ops.append("OSaveReload")
     qs = c["names"] + c["toks"] + [c["unknown"]]
@@ -240,6 +294,10 @@ def describe(c):
             d.append({"add": [op[1].s, op[3], op[4].b64]})
         elif op[0] == "del":
             d.append({"del": op[1].s})
+        elif op[0] == "subset":
+            d.append({"subset": [op[1].s, op[3], op[4].b64]})
+        elif op[0] == "subdel":
+            d.append({"subdel": [op[1].s, op[3]]})
         else:
             d.append(op[0])
     return {"ops": d, "queries": [q.s for q in c["names"] + c["toks"] + [c["unknown"]]]}
@@ -345,12 +403,13 @@ def impl_run(ctx, c, allkeys, tmp, load_cls=None):
             p = os.path.join(tmp, "kh%d" % i)
             with open(p, "w") as f:
                 f.write(op[1][0])
-            hk.load(p)
-            # oracle: loading the same file again changes nothing
+            code = try_load(hk, p)
+            # oracle: loading the same file again changes nothing (also when load is aborted by
+            # InvalidHostKey: it must abort again, at the same place)
             s1 = snapshot(hk, sp, queries, keys)
-            hk.load(p)
+            code2 = try_load(hk, p)
             s2 = snapshot(hk, sp, queries, keys)
-            if s1 != s2:
+            if s1 != s2 or code != code2:
                 extra = s2["lines"][len(s1["lines"]):]
                 rechecked = any(hk.check(h, env.by_b64[(t, b)].obj) for hs, t, b in extra
                                 for h in hs if (t, b) in env.by_b64)
@@ -396,6 +455,25 @@ def impl_run(ctx, c, allkeys, tmp, load_cls=None):
                          expected=[wcode, want], observed=[code, got])
         elif op[0] == "clear":
             hk.clear()
+        elif op[0] == "subset":
+            sub = hk.lookup(op[1].s)
+            if sub is None:
+                code = 10
+            else:
+                sub[op[3]] = op[4].obj
+                # oracle: a key set through the SubDict is the effective key of that host
+                if op[3] == op[4].tname and not hk.check(op[1].s, op[4].obj):
+                    ctx.fail("subdict-set-not-effective", "hostkeys.lookup(host)[type] = key does not make key the "
+                             "key check() accepts for host", case=dict(desc, step=i), expected=True, observed=False)
+        elif op[0] == "subdel":
+            sub = hk.lookup(op[1].s)
+            if sub is None:
+                code = 10
+            else:
+                try:
+                    del sub[op[3]]
+                except KeyError:
+                    code = 7
         else:
             s1 = snapshot(hk, sp, queries, keys)
             hk2 = cls(sp)
@@ -433,6 +511,15 @@ def impl_run(ctx, c, allkeys, tmp, load_cls=None):
     return out, snap
 
 
+def try_load(hk, path):
+    from paramiko.hostkeys import InvalidHostKey
+    try:
+        hk.load(path)
+    except InvalidHostKey:
+        return 101
+    return 0
+
+
 def make_v0_class():
     """HostKeys with the loop of load() as it was before the repair, to tie Model load_v0 to Python's
     real remove-while-iterating list semantics (documentation of the defect; not the anchored code)."""
@@ -460,6 +547,15 @@ def make_v0_class():
     return HostKeysV0
 
 
+def guarded_mismatches(ctx, fn, ty, rows, shard):
+    """the model run must never take the implementation-level oracle's findings with it"""
+    try:
+        return ctx.model_mismatches(fn, ty, rows, shard=shard)
+    except Exception as e:      # stale / uncompilable model after a translator abort, coqc failure
+        ctx.corr_broken.append({"what": "model run %s failed: %s" % (fn, str(e)[-600:])})
+        return []
+
+
 def run(ctx):
     rng = ctx.rng
     ctx.rule = ("seeded generator (random.Random('C41-<seed>')): per case 2-5 plain hosts, 0-3 hashed tokens "
@@ -467,19 +563,22 @@ def run(ctx):
                 "synthetic RSA/Ed25519 blobs, biased to several keys of one type), 1-8 operations out of load "
                 "(0-8 lines: 72% entry lines with 1-4 names incl. repeats, tabs, trailing comments, stray "
                 "whitespace; 28% blank/comment/too-few-fields/unknown-type/undecodable-key lines; 25% reload of an "
-                "earlier file), add (10% with a foreign key type), delete, clear, save+reload; every load is "
+                "earlier file; 6% lines that make load raise InvalidHostKey: marker lines, truncated base64, double "
+                "blank; 4% certificate lines), add (10% with a foreign key type), delete, SubDict set / delete, clear, "
+                "save+reload; every load is "
                 "followed by a second load of the same file in the implementation (oracle); a case is non-trivial "
                 "when distinct and its final table is not empty")
     ctx.trusted += ["model coq/Model/C41.v is hand-written; tied to paramiko/hostkeys.py by this differential run "
                     "(vm_compute of the model's own definitions, no extraction)",
                     "host hashing is an oracle relation in the model; per case it is computed with Python's "
                     "hmac/hashlib/base64 and reaches the real code through HostKeys.hash_host",
-                    "HostKeyEntry.from_line text parsing is abstracted (LSkip / LEntry); the harness renders "
-                    "structured lines to text"]
+                    "HostKeyEntry.from_line text parsing is abstracted (LSkip / LEntry / TBad); the harness renders "
+                    "structured lines to text",
+                    "gen/c41.py (AST of hostkeys.py -> Gen/C41_gen.v): selects the loader the theorems are about and "
+                    "pins the text of the other mirrored statements; fail-closed"]
     ctx.assumptions += ["host names contain no ',', blank, tab or newline and hashed tokens are well-formed "
                         "(|1|base64 salt of 20 bytes|base64 mac)",
-                        "every line's third field is valid base64 (otherwise load raises InvalidHostKey, outside "
-                        "this property)", "no entry has key None (HostKeys.__setitem__ with an empty dict)"]
+                        "no entry has key None (HostKeys.__setitem__ with an empty dict)"]
     ctx.prove()
     from paramiko.hostkeys import HostKeys
     keys = key_universe(ctx.repo, rng)
@@ -507,7 +606,7 @@ def run(ctx):
                 ctx.dist["op:" + op[0]] = ctx.dist.get("op:" + op[0], 0) + 1
         ctx.sample({"history": describe(cases[2]), "impl": rows[2][1]})
         ctx.sample({"history": describe(cases[3]), "impl": rows[3][1]})
-        bad = ctx.model_mismatches("run_case", "(hmap * list op * list name * list key)", rows, shard=120)
+        bad = guarded_mismatches(ctx, "run_case", "(hmap * list op * list name * list key)", rows, 120)
         for i in bad[:3]:
             ctx.disagree("HostKeys history differs from model", case=describe(cases[i]), impl=rows[i][1])
 
@@ -528,7 +627,7 @@ def run(ctx):
         rows0 = []
         for _ in range(300 if ctx.thorough else 40):
             names, toks, unknown, ks, hm = gen_universe(rng, keys)
-            text, struct = gen_file(rng, names, toks, ks)
+            text, struct = gen_file(rng, names, toks, ks, allow_bad=False)
             d = tempfile.mkdtemp(dir=tmp)
             p = os.path.join(d, "kh")
             with open(p, "w") as f:
@@ -546,7 +645,7 @@ def run(ctx):
                 out += [len(hs)] + [by_s[h].enc() for h in hs] + [k.tid, k.bid]
             rows0.append(("(%s, [%s])" % (coq(hm), ";".join(coq_line(s) for s in struct)), out))
             ctx.count(("v0", text), nontrivial=len(lines) > 0, kind="pre-repair-loop")
-        bad = ctx.model_mismatches("run_load_v0_twice", "(hmap * list line)", rows0)
+        bad = guarded_mismatches(ctx, "run_load_v0_twice", "(hmap * list line)", rows0, 150)
         for i in bad[:2]:
             ctx.disagree("model load_v0 differs from Python's remove-while-iterating semantics",
                          case=rows0[i][0], impl=rows0[i][1])
@@ -597,6 +696,14 @@ def replay(ctx, rep):
             ops.append(("add", by_s.get(h) or Name(h, 90), TYPE_IDS.get(tname, 0), tname, k))
         elif "del" in op:
             ops.append(("del", by_s.get(op["del"]) or Name(op["del"], 91)))
+        elif "subset" in op:
+            h, tname, b64 = op["subset"]
+            k = key_of(b64)
+            used.append(k)
+            ops.append(("subset", by_s.get(h) or Name(h, 92), TYPE_IDS.get(tname, 0), tname, k))
+        elif "subdel" in op:
+            h, tname = op["subdel"]
+            ops.append(("subdel", by_s.get(h) or Name(h, 93), TYPE_IDS.get(tname, 0), tname))
     c = {"names": names, "toks": [], "unknown": Name("nowhere.example.net", 40), "keys": used or keys[:3],
          "hm": [], "ops": ops}
     tmp = tempfile.mkdtemp(prefix="verif-c41-")
